@@ -16,7 +16,8 @@
 (*   raw.read(n) returning k <= n bytes           RawRead(k)                *)
 (*   BufferedReader.peek(3) / read(3)+seek        Classify                  *)
 (*   parse_length_prefixed: size varint           ReadLength                *)
-(*   parse_length_prefixed: payload               ReadPayload               *)
+(*   parse_length_prefixed: payload, through      ReadPayload (one piece of  *)
+(*     _BoundedReads.read in pieces                 at most ReadChunk bytes) *)
 (*   parse(frame, inp.read())  (non-delimited)    ReadAll                   *)
 (*                                                                          *)
 (* PeekOnce = TRUE is BufferedReader.peek(3) as the code uses it on         *)
@@ -32,6 +33,7 @@ CONSTANTS
   CutAt,          \* the source ends after that many bytes; -1 = complete stream
   Chunks,         \* set of possible short-read sizes (a read may also return everything that is left)
   PeekOnce,
+  ReadChunk,      \* a frame's payload is requested in pieces of at most that many bytes (_BoundedReads: 1 MiB in the code)
   HistReads       \* how many raw reads are remembered in the printed behaviour
 
 Magic == 10
@@ -70,7 +72,7 @@ VARIABLES pos,        \* bytes taken from the raw source
           buf,        \* BufferedReader: bytes read from the source and not yet consumed
           pc,         \* "classify" | "length" | "payload" | "all" | "done"
           classified, \* "" | "delimited" | "single"
-          need,       \* payload bytes the current frame needs
+          need,       \* payload bytes the current frame still needs
           frames,     \* frames handed to the decoder
           outcome,    \* "" | "eof" | "raise" | "misparse"
           reads       \* history of raw read sizes (first HistReads only)
@@ -117,15 +119,19 @@ ReadLength ==                  \* parse_length_prefixed: size varint, byte by by
           /\ pc' = "done" /\ outcome' = "raise" /\ UNCHANGED <<buf, need>>
   /\ UNCHANGED <<pos, classified, frames, reads>>
 
-ReadPayload ==
+ReadPayload ==                 \* one piece: min(need, ReadChunk) bytes are requested; fewer arrive only at end of input
   /\ pc = "payload"
-  /\ ~Wants(need)
-  /\ IF Len(buf) >= need
-     THEN /\ buf' = SubSeq(buf, need + 1, Len(buf))
-          /\ frames' = frames + 1
-          /\ pc' = "length" /\ outcome' = outcome
-     ELSE /\ pc' = "done" /\ outcome' = "raise" /\ UNCHANGED <<buf, frames>>      \* truncated message
-  /\ UNCHANGED <<pos, classified, need, reads>>
+  /\ LET want == IF need > ReadChunk THEN ReadChunk ELSE need IN
+     /\ ~Wants(want)
+     /\ IF Len(buf) >= want
+        THEN /\ buf' = SubSeq(buf, want + 1, Len(buf))
+             /\ need' = need - want
+             /\ IF need = want
+                THEN frames' = frames + 1 /\ pc' = "length"            \* the whole payload has arrived: the frame is parsed
+                ELSE frames' = frames /\ pc' = "payload"
+             /\ outcome' = outcome
+        ELSE /\ pc' = "done" /\ outcome' = "raise" /\ UNCHANGED <<buf, frames, need>>   \* truncated message (never padded)
+  /\ UNCHANGED <<pos, classified, reads>>
 
 ReadAll ==                     \* non-delimited: parse(frame, inp.read())
   /\ pc = "all"
